@@ -23,6 +23,7 @@ def run(chk, F):
     chk.guard("walk-coverage", "load_defs ids", lambda: L.defined_names_are_emitted(chk, F))
     chk.guard("walk-coverage", "name readings", lambda: L.readings_agree(chk, F))
     chk.guard("walk-coverage", "readings per context", lambda: L.context_readings(chk, F))
+    chk.guard("walk-coverage", "local names", lambda: L.local_names(chk, F))
     chk.guard("errors-reported", "load_defs", lambda: L.errors_reported(chk, F))
     chk.guard("errors-reported", "load_defs inserts", lambda: L.input_inserts_checked(chk, F))
     import c07
